@@ -182,7 +182,7 @@ def fsize_fault(job):
         def pre():
             signal.signal(signal.SIGXFSZ, signal.SIG_IGN)
             resource.setrlimit(resource.RLIMIT_FSIZE, (limit, limit))
-        args = [BIN, 'push', '-q', '--threads', str(threads), '--backup', 'always'] + (['1'] if last == 1 else ['-a'])
+        args = [BIN, 'push', '-q', '--threads', str(threads), '--backup', 'always'] + (['1'] if last == 1 else ['-a']) + (['-p', 'pd'] if ws.alt_patches(w) else [])
         try:
             p = subprocess.run(args, cwd=w, env=ws.ENV, stdout=subprocess.PIPE, stderr=subprocess.PIPE, timeout=120, preexec_fn=pre)
             rc, se = p.returncode, p.stderr.decode('utf-8', 'replace')
